@@ -270,6 +270,9 @@ class _TableFormSection(object):
     else:
       raise ConfigParserException("Could not parse data from '{}', neither 'xy' or 'x' and 'y' entries found.".format(section_name))
 
+    if len(data[0]) == 0:
+      raise ConfigParserException("No data items were given in section '{}'".format(section_name))
+
     return data
 
   def _parse_section(self, section_name):
